@@ -96,12 +96,10 @@ func parseRoutes(c *config.C, networks []netip.Prefix) ([]Route, error) {
 			return nil, fmt.Errorf("entry %v.mtu in tun.routes is not present", i+1)
 		}
 
-		mtu, ok := rMtu.(int)
-		if !ok {
-			mtu, err = strconv.Atoi(rMtu.(string))
-			if err != nil {
-				return nil, fmt.Errorf("entry %v.mtu in tun.routes is not an integer: %v", i+1, err)
-			}
+		var mtu int
+		mtu, err = configInt(rMtu)
+		if err != nil {
+			return nil, fmt.Errorf("entry %v.mtu in tun.routes is not an integer: %v", i+1, err)
 		}
 
 		if mtu < 500 {
@@ -172,12 +170,9 @@ func parseUnsafeRoutes(c *config.C, networks []netip.Prefix) ([]Route, error) {
 
 		var mtu int
 		if rMtu, ok := m["mtu"]; ok {
-			mtu, ok = rMtu.(int)
-			if !ok {
-				mtu, err = strconv.Atoi(rMtu.(string))
-				if err != nil {
-					return nil, fmt.Errorf("entry %v.mtu in tun.unsafe_routes is not an integer: %v", i+1, err)
-				}
+			mtu, err = configInt(rMtu)
+			if err != nil {
+				return nil, fmt.Errorf("entry %v.mtu in tun.unsafe_routes is not an integer: %v", i+1, err)
 			}
 
 			if mtu != 0 && mtu < 500 {
@@ -190,12 +185,9 @@ func parseUnsafeRoutes(c *config.C, networks []netip.Prefix) ([]Route, error) {
 			rMetric = 0
 		}
 
-		metric, ok := rMetric.(int)
-		if !ok {
-			_, err = strconv.ParseInt(rMetric.(string), 10, 32)
-			if err != nil {
-				return nil, fmt.Errorf("entry %v.metric in tun.unsafe_routes is not an integer: %v", i+1, err)
-			}
+		metric, err := configInt(rMetric)
+		if err != nil {
+			return nil, fmt.Errorf("entry %v.metric in tun.unsafe_routes is not an integer: %v", i+1, err)
 		}
 
 		if metric < 0 || metric > math.MaxInt32 {
@@ -246,12 +238,9 @@ func parseUnsafeRoutes(c *config.C, networks []netip.Prefix) ([]Route, error) {
 					rGatewayWeight = 1
 				}
 
-				gatewayWeight, ok := rGatewayWeight.(int)
-				if !ok {
-					_, err = strconv.ParseInt(rGatewayWeight.(string), 10, 32)
-					if err != nil {
-						return nil, fmt.Errorf("entry .weight in tun.unsafe_routes[%v].via[%v] is not an integer", i+1, ig+1)
-					}
+				gatewayWeight, err := configInt(rGatewayWeight)
+				if err != nil {
+					return nil, fmt.Errorf("entry .weight in tun.unsafe_routes[%v].via[%v] is not an integer", i+1, ig+1)
 				}
 
 				if gatewayWeight < 1 || gatewayWeight > math.MaxInt32 {
@@ -333,4 +322,16 @@ func ipWithin(o *net.IPNet, i *net.IPNet) bool {
 	}
 
 	return true
+}
+
+// configInt reads a numeric config value given as an integer or as a decimal string
+func configInt(v any) (int, error) {
+	switch t := v.(type) {
+	case int:
+		return t, nil
+	case string:
+		return strconv.Atoi(t)
+	default:
+		return 0, fmt.Errorf("found %T", v)
+	}
 }
